@@ -225,6 +225,19 @@ func init() {
 				}
 				mask := []int{15, 1, r.Intn(16)}[r.Intn(3)]
 				rc := &RunCfg{Opts: optSubset(mask, r.Bool()), Stateless: randStatelessHeavy(r)}
+				if r.Intn(4) == 0 { // a derived configuration with a sibling that declares the other operators
+					rc.Sibling = []string{}
+					for _, nme := range testOpNames {
+						declared := false
+						for _, s := range rc.Stateless {
+							declared = declared || s == nme
+						}
+						if !declared {
+							rc.Sibling = append(rc.Sibling, nme)
+						}
+					}
+					rc.BaseCut, rc.ViaCopy = r.Intn(len(rc.Stateless)+1), r.Bool()
+				}
 				bind := randBinding(r)
 				addEval(c, b, &EvalSpec{Tree: t, RC: rc, Bind: bind, DoEval: true, Tags: []string{fmt.Sprintf("subset:%d", mask)}})
 				// repeated evaluations: every evaluation calls the same registered operators again
